@@ -92,7 +92,7 @@ def _param_names(pred):
 
 
 def _env_of(interp, frame, extra):
-    env = {}
+    env = {'ghost': interp.st.ghost, 'trace': interp.st.trace}     # ghost state / events (unless shadowed by a local)
     if frame.info.filename.endswith('functools_model.py'):
         # library model: the call site's names are visible to the invariant
         for fr in reversed(interp.frame_stack):
